@@ -45,7 +45,9 @@ def run(ck):
     ck.build_and_audit()
     run_corpus(ck)
     decl_stub.suite_seeds(ck)
+    decl_stub.suite_sparse_matrix(ck)
     decl_stub.suite_fmt(ck, decl_stub.spec_identifiers(ck.scale(3, 40), ck.rng))
+    decl_stub.suite_sparse_random(ck, ck.scale(40, 600))
     decl_stub.suite_generated(ck, ck.scale(60, 1500))
     ck.assumptions.extend([
         'identifiers of the generated specs are Python safe (presets rt / py_safe / routes); hand seeds add names that need '
